@@ -176,7 +176,6 @@ func c25Gen(g *Gen) {
 	}
 	if g.Thorough() {
 		c25GenExhaustiveCache(g)
-		c25GenDefaultCapacity(g, r)
 	}
 }
 
@@ -560,22 +559,6 @@ func c25GenExhaustiveCache(g *Gen) {
 	for d := 1; d <= 4; d++ {
 		rec(nil, d)
 	}
-}
-
-// thorough: the default capacity (ReplayCapacity <= 0) really is 100000: the first proof is still
-// refused after 99999 further admissions and accepted again after one more.
-func c25GenDefaultCapacity(g *Gen, r *Rng) {
-	w := &c25World{mode: "require", origin: "worker-a", skew: 300, cap: 0, inner: "nil", keys: []c25Key{{"k1", r.Bytes(32)}}}
-	base := int64(1700000000)
-	mk := func(i int) string {
-		return c25Token(w.keys[0].secret, "k1", strconv.FormatInt(base, 10), fmt.Sprintf("%022d", i), w.origin)
-	}
-	lines := []string{w.cfgLine(), c25ReqLine(base*c25NS, mk(0))}
-	for i := 1; i <= 99999; i++ {
-		lines = append(lines, c25ReqLine(base*c25NS+int64(i), mk(i)))
-	}
-	lines = append(lines, c25ReqLine(base*c25NS+100000, mk(0)), c25ReqLine(base*c25NS+100001, mk(100000)), c25ReqLine(base*c25NS+100002, mk(0)))
-	g.Case(lines...)
 }
 
 // ---------------------------------------------------------------- exec
